@@ -201,7 +201,24 @@ def c08(run):
         "comparison with NSTART, and the two functions that first transmit an unreliable Confirmable count it. Necessary for the NSTART bound.")
 
 
+def c06(run):
+    from rules import r_ownnode
+    P = run.prog('rel')
+    r_ownnode.run(run, P)
+    r_ownnode.run_retrans(run, P)
+    run.min_instances('R-OWN-NODE', 8)
+    run.min_instances('R-RETRANS', 2)
+    run.assumptions = ASSUME_COMMON + ["timing (T, 2T, 4T; reported wait <= earliest deadline), byte-identical retransmission and behaviour under loss patterns are NOT decided",
+                                       "a (session, mid) pair occurs at most once in the send queue"]
+    return run.finish(
+        "Send-queue node typestate on every path of every function handling coap_queue_t*: a node has exactly one owner (held / in the send "
+        "queue / in a delay queue / deleted), is never deleted while linked in a delay queue, never used after deletion and never lost "
+        "(R-OWN-NODE) - so after its single outcome a message cannot be sent again; in coap_retransmit the retransmission is gated by "
+        "retransmit_cnt < max_retransmit with exactly one increment, and a given-up Confirmable is NACKed exactly once before deletion (R-RETRANS).")
+
+
 PROPS = {
+    'C06': c06,
     'C08': c08,
     'C15': c15,
     'C16': c16,
